@@ -14,6 +14,8 @@ Also here: the request-stream grammar (well-formed requests with legal
 oddities, the catalogue of single-defect requests, byte mutations) and the
 h11 cross-check helpers.  The reference parsers live in models/http1.py.
 """
+import os
+
 import h11
 
 from twisted.internet import error
@@ -47,6 +49,58 @@ def install_clock_seam(sim):
 def cleanup(sim):
     if "gmtime" in _saved:
         http.gmtime = _saved["gmtime"]
+    if "tempfile" in _saved:
+        http.tempfile = _saved["tempfile"]
+
+
+class SpoolFile:
+    """The temporary file a request body is spooled to (what http._getContentFile() gets from tempfile.TemporaryFile() for a
+    chunked body or a body of >= 100000 bytes), on a device that may report an error when the file is closed - EIO on a failing or
+    network disk, ENOSPC/EDQUOT on a delayed flush.  Everything is passed to the real temporary file; close() closes it (the
+    descriptor is gone either way, as in CPython) and then asks `decide(self)` for an errno to report (None/0: none).  A second
+    close() is a no-op, as with real files.  `owner` is free for the scenario (which request the file belongs to)."""
+
+    def __init__(self, real, decide):
+        self._real = real
+        self._decide = decide
+        self.owner = None
+        self.close_calls = 0
+
+    def __getattr__(self, name):
+        return getattr(self._real, name)
+
+    def close(self):
+        self.close_calls += 1
+        self._real.close()
+        if self.close_calls > 1:
+            return
+        err = self._decide(self)
+        if err:
+            raise OSError(err, os.strerror(err))
+
+
+class _TempfileSeam:
+    """Stands in for the name `tempfile` inside twisted.web.http (the module calls tempfile.TemporaryFile()): the real module, except
+    that every TemporaryFile() is passed through `wrap`."""
+
+    def __init__(self, real, wrap):
+        self._real = real
+        self._wrap = wrap
+
+    def __getattr__(self, name):
+        return getattr(self._real, name)
+
+    def TemporaryFile(self, *args, **kwargs):
+        return self._wrap(self._real.TemporaryFile(*args, **kwargs))
+
+
+def install_tempfile_seam(sim, wrap):
+    """Optional (used by C21): rebind the module-level name `tempfile` of twisted.web.http for this run, so that the scenario owns the
+    spool files of request bodies (`wrap(real_file)` -> the object the Request gets as .content, e.g. a SpoolFile).  Nothing outside
+    twisted.web.http is touched; restored by cleanup()."""
+    if "tempfile" not in _saved:
+        _saved["tempfile"] = http.tempfile
+    http.tempfile = _TempfileSeam(_saved["tempfile"], wrap)
 
 
 # ------------------------------------------------------------------ transport
